@@ -154,8 +154,12 @@ func (g *richGen) action(flowIdx, nodeID, k int) map[string]any {
 		}
 		return m
 	case 6, 7:
-		if g.nflows > 1 {
-			m := set("enter_flow", "flow", flowRefJSON(1+r.Intn(g.nflows)))
+		if g.nflows > 1 && (flowIdx < g.nflows || r.Chance(1, 4)) {
+			target := 1 + r.Intn(g.nflows) // any flow, itself included (loops end at the step limit)
+			if flowIdx < g.nflows && r.Chance(4, 5) {
+				target = r.Range(flowIdx+1, g.nflows)
+			}
+			m := set("enter_flow", "flow", flowRefJSON(target))
 			if r.Chance(1, 6) {
 				m["terminal"] = true
 			}
@@ -616,6 +620,17 @@ func runRich(o *hx.Opts, rnd *hx.Rand, res *hx.Result) {
 			res.Dist("rich:first-call=" + sr.base.Calls[0].Outcome)
 			last := sr.base.Calls[len(sr.base.Calls)-1]
 			res.Dist("rich:final-status=" + last.Status)
+			if o.Verbose {
+				for _, c := range sr.base.Calls {
+					for _, e := range c.Events {
+						if eventType(e) == "failure" || eventType(e) == "error" {
+							var m struct{ Text string }
+							json.Unmarshal([]byte(e), &m)
+							res.Dist("rich:" + eventType(e) + ":" + clip(m.Text, 60))
+						}
+					}
+				}
+			}
 		}
 		for _, t := range sc.Tags {
 			if t != "rich" {
